@@ -184,10 +184,7 @@ func sameConst(a, b tengo.Object, strict bool) bool {
 		if !ok {
 			return false
 		}
-		if strict {
-			return math.Float64bits(a.Value) == math.Float64bits(b.Value)
-		}
-		return a.Value == b.Value
+		return math.Float64bits(a.Value) == math.Float64bits(b.Value) || (!strict && a.Value == b.Value)
 	case *tengo.ImmutableMap:
 		b, ok := b.(*tengo.ImmutableMap)
 		if !ok || modName(a) == "" || modName(a) != modName(b) {
@@ -897,6 +894,7 @@ func corpus() []replayInput {
 		{Source: "a := \"ab\"\nb := \"cd\"\nc := \"ab\"\nd := a + b + c + \"cd\"\n"},
 		{Source: "f := func(n) { if n == 0 { return 0 }; return n + f(n - 1) }\na := f(10)\nb := 10\n"},
 		{Source: "a := 5\nb := a / (a - 5)\n"},
+		{Source: "f := func(a, ...b) { return [a, b, 1, 1] }\nx := f(1, 2, 3)\ny := f(1)\ng := func(...c) { return len(c) + 1 }\nz := g(1, 1, 1)\n"},
 		{Source: "f := func(a) {\n  return a[0] + 1\n}\nx := f([1]) + 1\ny := f(1)\n"},
 		withMods("a := import(\"m1\")\nb := import(\"m1\")\nc := import(\"m2\")\nr1 := a.f(in1)\nr2 := b.g(in1)(3)\nr3 := c.bad(in2)\nr4 := c.up(\"abc\")\n"),
 		withMods("m := import(\"math\")\nn := import(\"math\")\nt := import(\"text\")\nr1 := m.abs(in1) + n.pi\nr2 := t.to_upper(\"abc\") + \"abc\"\n"),
